@@ -11,7 +11,7 @@ From Coq Require Import List Ascii String ZArith NArith Bool Lia Classical_Prop.
 From Anthem Require Import Base.ISet Syntax.Fol Syntax.Asp Sem.Domain Sem.Sat Sem.AspRef
   Model.Problem Model.Outline Model.Strong Model.External Model.Tightness Model.PrivRec Model.TauStar
   Model.Completion Model.ExternalFull
-  Proofs.ExtendAll Proofs.SemBase Proofs.DecomposeOk Proofs.StrongOk Proofs.ExternalOk Proofs.RenameOk
+  Proofs.ExtendAll Proofs.SemBase Proofs.DecomposeOk Proofs.StrongOk Proofs.ExternalOk Proofs.AssemblyOk Proofs.RenameOk
   Proofs.TightnessOk Proofs.TauStarClassical Proofs.CompletionOk Proofs.FagesBridge Proofs.PlaceholderOk
   Proofs.PrivateUnique Proofs.C02Ok Proofs.C02Full Proofs.HeadPred Proofs.HeadPredPipeline Proofs.C02Priv.
 Import ListNotations.
@@ -160,5 +160,54 @@ Proof.
                ext_stable_full t FI (reindex (task_mapping t) M) (et_program t)).
   { apply (ext_stable_public_part t (et_program t) GR thr FI _ HtR (no_input_in_head t _ HhR) HGR Etr HpR Harr). }
   rewrite EL, ER. reflexivity.
+Qed.
+(* a countermodel of an emitted problem satisfies all stable premises: the user-guide assumptions
+   and the Assumption formulas of both sides are axioms of every problem *)
+Lemma refuted_stable_premises vt w pbs :
+  validated_decompose vt = Ok (w, pbs) -> vt_proof_outline vt = empty_outline -> validated_no_clash vt ->
+  translated (vt_left vt) -> translated (vt_right vt) ->
+  forall FI M, refutes_some FI M pbs ->
+    tvalid FI M (map an_formula (vt_user_guide_assumptions vt)) /\
+    tvalid FI M (assumptions_of (vt_left vt)) /\ tvalid FI M (assumptions_of (vt_right vt)).
+Proof.
+  intros Hd Ho Hn Hl Hr FI M Href.
+  destruct (validated_refutes_no_outline vt w pbs Hd Ho Hn) as [cl [cr [El [Er Hchar]]]].
+  destruct (left_translated FI M (vt_break vt) _ Hl) as [cl' [El' [L1 _]]].
+  destruct (right_translated FI M (vt_break vt) _ Hr) as [cr' [Er' [R1 _]]].
+  rewrite El in El'. injection El' as <-. rewrite Er in Er'. injection Er' as <-.
+  apply (Hchar FI M) in Href. cbv zeta in Href. rewrite L1, R1, !tvalid_app in Href. tauto.
+Qed.
+
+(* soundness of countermodels, no hypothesis on M: an interpretation that refutes an emitted problem
+   of an accepted program-vs-program task witnesses a difference in external behaviour *)
+Theorem C02_countermodel_proof t L w pbs lft rgt :
+  et_specification t = inl L -> et_proof_outline t = [] ->
+  external_decompose_full fuel t = XOk w pbs ->
+  is_tight L = true -> is_tight (et_program t) = true ->
+  tl t L = Some lft -> tr t = Some rgt ->
+  (forall uga, validated_no_clash (mkvalidated lft rgt uga empty_outline (et_decomposition t) (et_direction t) (et_break t))) ->
+  forall FI M,
+    refutes_some FI M pbs ->
+    (dir_forward (et_direction t) = true /\
+     ext_stable_full t FI M L /\
+     ~ exists N, pub_agree t N (reindex (task_mapping t) M) /\ ext_stable_full t FI N (et_program t)) \/
+    (dir_backward (et_direction t) = true /\
+     ext_stable_full t FI (reindex (task_mapping t) M) (et_program t) /\
+     ~ exists N, pub_agree t N M /\ ext_stable_full t FI N L).
+Proof.
+  intros Hs Ho Hfull HtL HtR El Er Hn FI M Href.
+  destruct (full_ok_inv fuel t w pbs Hfull) as [_ [Hd _]].
+  destruct (external_validated is_tight has_private_recursion tau_star_total completion (simp_classic_total fuel)
+              t L w pbs Hs Ho Hd) as [lft' [rgt' [uga [w' [El' [Er' [Eu Hv]]]]]]].
+  rewrite El in El'. injection El' as <-. rewrite Er in Er'. injection Er' as <-.
+  assert (Tl : translated lft).
+  { unfold task_left in El. destruct (translate t (task_placeholders t) L); [|discriminate]. injection El as <-.
+    apply control_translate_translated. }
+  assert (Tr : translated rgt).
+  { unfold task_right in Er. destruct (translate t (task_placeholders t) (et_program t)); [|discriminate]. injection Er as <-.
+    apply rename_translated, control_translate_translated. }
+  destruct (refuted_stable_premises _ w' pbs Hv eq_refl (Hn uga) Tl Tr FI M Href) as [Hug [Hal Har]].
+  cbn in Hug, Hal, Har. rewrite Eu in Hug.
+  exact (proj1 (C02_behaviour_proof t L w pbs lft rgt Hs Ho Hfull HtL HtR El Er Hn FI M Hug Hal Har) Href).
 Qed.
 End Behaviour.
